@@ -16,7 +16,9 @@ HAND = ["[Na+].[Cl-]>>[Na+].[Cl-]", "[U]>>[U]", "F[U](F)(F)(F)(F)F>>F[U](F)(F)(F
         "[Fe+2].[Fe+3]>>[Fe+3].[Fe+2]", "c1ccccc1>>C1=CC=CC=C1", "[CH3:1][OH:2]>>[CH3:1][OH:2]", "[Og]>>[Og]", "*>>*", "[U]>>[Th]",
         # equal element counts, different net charge (negative, positive, on either side): must NOT be input-balanced
         "[Cl-].[Cl-]>>ClCl", "ClCl>>[Cl-].[Cl-]", "[O-]C(=O)C([O-])=O>>O=C=O.O=C=O", "O=C=O.O=C=O>>[O-]C(=O)C([O-])=O", "[Fe+3]>>[Fe+2]", "[Fe+2]>>[Fe+3]",
-        "[O-]c1ccc([O-])cc1>>O=C1C=CC(=O)C=C1", "[Cu+]>>[Cu]", "[Na]>>[Na+]", "[S-2]>>[S]"]
+        "[O-]c1ccc([O-])cc1>>O=C1C=CC(=O)C=C1", "[Cu+]>>[Cu]", "[Na]>>[Na+]", "[S-2]>>[S]",
+        # a molecule written with a ring-closure bond across the dot (known finding cross-dot-ring-closure)
+        "C1.C1O>>CCO", "CC(=O)O1.C1C>>CCOC(C)=O"]
 
 
 def oracle(ctx, b, expect_variant=False, by_input=False):
@@ -46,7 +48,11 @@ def oracle(ctx, b, expect_variant=False, by_input=False):
             if inp.count(".") >= 2 or "+" in inp or "-]" in inp or expect_variant:
                 ctx.nontrivial.add(inp)
             if not (r["solved"] and r["solved_by"] == "input-balanced"):
-                ctx.fail("balanced-input-not-input-balanced", case, {})
+                # a molecule written with a ring-closure bond ACROSS the dot (valid SMILES): the side parses, one of its dot-separated
+                # tokens alone does not -- the carbon counter works token by token and miscounts it (known finding)
+                from rdkit import Chem
+                cross = any(Chem.MolFromSmiles(t) is None for side in inp.split(">>") for t in side.split("."))
+                ctx.fail("cross-dot-ring-closure" if cross else "balanced-input-not-input-balanced", case, {})
             elif r["reaction"] != r["input_reaction"]:
                 ctx.fail("input-balanced-row-changed", case, {})
             else:
